@@ -70,10 +70,10 @@ def stepOnce (eng : Engine) (c : Chart) (a : Api) : Api × Ret :=
 /-- `step` as the harness observes it: result and configuration are appended to the log -/
 def stepObserved (eng : Engine) (c : Chart) (a : Api) : Api × Ret :=
   let (a, r) := stepOnce eng c a
-  ({ a with e := { a.e with x := (a.e.x.emit (.ret r.toString)).emit (.raw (cfgToken c a.e.config)) } }, r)
+  ({ a with e := { a.e with x := (a.e.x.emit (.ret r.toString)).emit (.note (cfgToken c a.e.config)) } }, r)
 
 def quiesce (eng : Engine) (c : Chart) : Nat → Api → Api
-  | 0, a => { a with e := { a.e with x := a.e.x.emit (.raw "DIVERGE") } }
+  | 0, a => { a with e := { a.e with x := a.e.x.emit (.note "DIVERGE") } }
   | fuel + 1, a =>
     let (a, r) := stepObserved eng c a
     if r == .idle || r == .finished then a else quiesce eng c fuel a
@@ -87,15 +87,15 @@ def applyApi (eng : Engine) (c : Chart) (a : Api) : Op → Api
   | .receive ev => { a with e := { a.e with x := a.e.x.sendExt ev } }
   | .cancel =>
     -- `markAsCancelled()` + the empty event that unblocks a waiting `step()`
-    { a with e := { a.e with cancelled := true, x := (a.e.x.emit (.raw "cancel")).sendExt "" } }
-  | .getState => { a with e := { a.e with x := a.e.x.emit (.raw s!"state:{a.last.toString}") } }
+    { a with e := { a.e with cancelled := true, x := (a.e.x.emit (.note "cancel")).sendExt "" } }
+  | .getState => { a with e := { a.e with x := a.e.x.emit (.note s!"state:{a.last.toString}") } }
   | .reset | .destroy => a     -- handled by `apply`
 
 /-- `reset()` and destruction + re-creation end the incarnation: what follows starts from the
 freshly instantiated interpreter `{}` -/
 def apply (eng : Engine) (c : Chart) (s : Session) : Op → Session
-  | .reset => { past := Tok.raw "reset" :: (s.a.e.x.obs ++ s.past), a := {} }
-  | .destroy => { past := Tok.raw "destroyed" :: (s.a.e.x.obs ++ s.past), a := {} }
+  | .reset => { past := Tok.note "reset" :: (s.a.e.x.obs ++ s.past), a := {} }
+  | .destroy => { past := Tok.note "destroyed" :: (s.a.e.x.obs ++ s.past), a := {} }
   | op => { s with a := applyApi eng c s.a op }
 
 def run (eng : Engine) (c : Chart) (ops : List Op) : Session := ops.foldl (apply eng c) {}
